@@ -358,6 +358,40 @@ func init() {
 			fmt.Fprintf(&sb, "\n/-- does CommitFamilyEditLog take its snapshot and clone the version inside vs.mutex? -/\n")
 			fmt.Fprintf(&sb, "def commitCloneUnderLock : Bool := %v\n", ok)
 		}
+		// snapshot.FindReaders: its calls, and what its error branch (`if err != nil` inside the loop) calls
+		{
+			fd, err := need(snap, "snapshot", "FindReaders")
+			if err != nil {
+				return "", err
+			}
+			def("findReadersCalls", c02Events(fd, nil))
+			var errCalls []string
+			found := false
+			ast.Inspect(fd.Body, func(n ast.Node) bool {
+				is, ok := n.(*ast.IfStmt)
+				if !ok || found {
+					return true
+				}
+				if c02Text(is.Cond) == "err!=nil" {
+					found = true
+					errCalls = c02Events(&ast.FuncDecl{Body: is.Body}, nil)
+					return false
+				}
+				return true
+			})
+			if !found {
+				return "", fmt.Errorf("FindReaders: error branch not found")
+			}
+			def("findReadersErrCalls", errCalls)
+			rel := false
+			for _, c := range errCalls {
+				if strings.Contains(c, "ReleaseReaders") || strings.Contains(c, "release") {
+					rel = true
+				}
+			}
+			fmt.Fprintf(&sb, "\n/-- does FindReaders' error path release readers (which stay recorded in s.readers)? -/\n")
+			fmt.Fprintf(&sb, "def findErrReleases : Bool := %v\n", rel)
+		}
 		// NextFileNumber: is the counter incremented inside vs.mutex?
 		{
 			fd, err := need(vs, "storeVersionSet", "NextFileNumber")
